@@ -2,10 +2,8 @@ package validator
 
 import (
 	"bytes"
-	"reflect"
 	"strings"
 
-	jbytes "github.com/jsightapi/jsight-schema-go-library/bytes"
 	"github.com/jsightapi/jsight-schema-go-library/errors"
 	"github.com/jsightapi/jsight-schema-go-library/internal/lexeme"
 	"github.com/jsightapi/jsight-schema-go-library/notations/jschema/internal/schema"
@@ -113,7 +111,7 @@ func (v *objectValidator) feedObjectValueBegin() ([]validator, bool) {
 	}
 
 	// child node not found on schema object
-	if key, ok := v.validateTypeRules(objectNode, v.lastFoundKeyLex.Value()); ok {
+	if key, ok := v.validateTypeRules(objectNode, v.lastFoundKeyLex); ok {
 		if child, ok := objectNode.Child(key, true); ok {
 			delete(v.requiredKeys, key)
 			return NodeValidatorList(child, v.rootSchema, v), false
@@ -140,8 +138,12 @@ func (v objectValidator) requiredKeysString() string {
 // validate with rules
 //
 // Every key shortcut of the object is tried, in source order, whether it is
-// required or optional and whether it has already admitted another key.
-func (v objectValidator) validateTypeRules(objectNode *schema.ObjectNode, value jbytes.Bytes) (string, bool) {
+// required or optional and whether it has already admitted another key. A
+// shortcut admits the key when its type accepts the key as the JSON string it
+// is: the key is given to the validators of the type, so every form a string
+// type can take (rules, formats, references and unions) is decided by the same
+// code as for a value.
+func (v objectValidator) validateTypeRules(objectNode *schema.ObjectNode, keyLex lexeme.LexEvent) (string, bool) {
 	for _, k := range objectNode.Keys().Data {
 		if !k.IsShortcut {
 			continue
@@ -152,57 +154,37 @@ func (v objectValidator) validateTypeRules(objectNode *schema.ObjectNode, value 
 			continue
 		}
 		node := typ.Schema().RootNode()
-		if node.Type().String() != "string" {
-			panic(errors.Format(errors.ErrInvalidKeyType, v.requiredKeysString()))
-		}
-
-		flag := false
-		inside := false
-		i := 0
-
-		node.ConstraintMap().EachSafe(func(_ constraint.Type, v constraint.Constraint) {
-			inside = true
-			if i == 0 {
-				flag = true
-			}
-			flag = flag && checkConstraint(v, value)
-			i++
-		})
-
-		if !inside {
-			if bytes.Equal(node.Value(), value) {
-				flag = true
+		switch node.(type) {
+		case *schema.MixedNode, *schema.MixedValueNode:
+		default:
+			if node.Type().String() != "string" {
+				panic(errors.Format(errors.ErrInvalidKeyType, v.requiredKeysString()))
 			}
 		}
-		if flag {
-			// all rules ok for a node
+
+		if node.ConstraintMap().Len() == 0 {
+			// A type that is a bare example stands for that very key.
+			if bytes.Equal(node.Value().Unquote(), keyLex.Value().Unquote()) {
+				return key, true
+			}
+			continue
+		}
+
+		if v.typeAcceptsKey(node, keyLex) {
 			return key, true
 		}
 	}
 	return "", false
 }
 
-func checkConstraint(constr constraint.Constraint, value jbytes.Bytes) (b bool) {
+func (v objectValidator) typeAcceptsKey(node schema.Node, keyLex lexeme.LexEvent) (ok bool) {
 	defer func() {
 		if r := recover(); r != nil {
-			b = false
+			ok = false
 		}
 	}()
 
-	switch ct := constr.(type) {
-	case *constraint.MinLength:
-		ct.Validate(value)
-		return true
-	case *constraint.MaxLength:
-		ct.Validate(value)
-		return true
-	case *constraint.Regex:
-		ct.Validate(value)
-		return true
-	case *constraint.Enum:
-		ct.Validate(value)
-		return true
-	default:
-		panic(errors.Format(errors.ErrUnknownRule, reflect.TypeOf(constr)))
-	}
+	tree := NewTree(NodeValidatorList(node, v.rootSchema, nil))
+	tree.FeedLeaves(lexeme.NewLexEvent(lexeme.LiteralBegin, keyLex.Begin(), keyLex.Begin(), keyLex.File()))
+	return tree.FeedLeaves(lexeme.NewLexEvent(lexeme.LiteralEnd, keyLex.Begin(), keyLex.End(), keyLex.File()))
 }
